@@ -27,6 +27,7 @@ glamfit_complex(const struct ndsparse* data, const double* weights, const double
 	size_t sidelen;
 	uint64_t* nsplines;
 	long i, j, k;
+	long ncoefficients;
 	int err = 0;
 	
 	assert(data->ndim>0);
@@ -276,7 +277,8 @@ glamfit_complex(const struct ndsparse* data, const double* weights, const double
 
 	//out->coefficients = malloc(coefficients->nrow * coefficients->ncol *
 	//    sizeof(float));
-	for (i = 0; i < coefficients->nrow * coefficients->ncol; i++)
+	ncoefficients = coefficients->nrow * coefficients->ncol;
+	for (i = 0; i < ncoefficients; i++)
 		out_coefficients[i] = ((double *)(coefficients->x))[i];
 	//out->naxes = malloc(out->ndim * sizeof(long));
 	//for (i = 0; i < out->ndim; i++)
@@ -311,6 +313,17 @@ glamfit_complex(const struct ndsparse* data, const double* weights, const double
 					i*stride2*naxes[monodim] + (j-1)*stride2 + k];
 				}
 			}
+		}
+	}
+
+	/*
+	 * The table holds single precision coefficients: a solution beyond
+	 * that range is not finite either once it is stored.
+	 */
+	for (i = 0; i < ncoefficients; i++) {
+		if (!isfinite(out_coefficients[i])) {
+			printf("Solution is not finite in single precision\n");
+			return(1);
 		}
 	}
 	return(0);
